@@ -39,6 +39,10 @@ type Meta struct {
 
 // TokenReader satisfies the xmlstream.Marshaler interface.
 func (m *Meta) TokenReader() xml.TokenReader {
+	var hash xml.TokenReader
+	if m.Hash.Hash != 0 || len(m.Hash.Out) > 0 {
+		hash = m.Hash.TokenReader()
+	}
 	return xmlstream.Wrap(
 		xmlstream.MultiReader(
 			xmlstream.Wrap(
@@ -65,7 +69,7 @@ func (m *Meta) TokenReader() xml.TokenReader {
 					Name: xml.Name{Local: "size"},
 				},
 			),
-			m.Hash.TokenReader(),
+			hash,
 			xmlstream.Wrap(
 				xmlstream.Token(xml.CharData(strconv.FormatUint(m.Width, 10))),
 				xml.StartElement{
